@@ -369,6 +369,27 @@ def r6(p, rep):
     if not found:
         raise AnalysisError("unrecognised idiom: no ConvertibleTensor(concrete=...parameters=...) construction reachable from _to_tracer")
 
+def r7(p, rep):
+    rep.rule("C13.R7", "an operation never hands an input tracer back as its result unless that input is known to be a concrete tensor (a factory would be returned uncalled)", "T-DOM (shortcut returns of a parameter element are guarded by `<it>.shape is not None`)", floor=1)
+    m = p.module("adapter.einx_from_namedtensor")
+    n = 0
+    for f in p.funcs.values():
+        if f.module is not m or not isinstance(f.node, (ast.FunctionDef, ast.AsyncFunctionDef)) or f.node.args.vararg is None:
+            continue
+        va = f.node.args.vararg.arg
+        cfg = None
+        for r in walk_no_nested(f.node):
+            if isinstance(r, ast.Return) and isinstance(r.value, ast.Subscript) and isinstance(r.value.value, ast.Name) and r.value.value.id == va and isinstance(r.value.slice, ast.Constant):
+                n += 1
+                cfg = cfg or CFG(f.node)
+                tgt = norm(r.value)
+                facts = cfg.guards_of_ast(r)
+                ok = any(isinstance(t, ast.Compare) and len(t.ops) == 1 and norm(t.left) == f"{tgt}.shape" and isinstance(t.comparators[0], ast.Constant) and t.comparators[0].value is None and ((isinstance(t.ops[0], ast.IsNot) and pol) or (isinstance(t.ops[0], ast.Is) and not pol)) for t, pol in facts)
+                rep.add("C13.R7", f"{f.qualname}:return-input:{tgt}", f"{f.module.rel}:{r.lineno}", ok, f"`return {tgt}` only for a concrete tensor" if ok else f"`return {tgt}` hands the caller's own argument back without looking at what it is: when the target is a tensor factory, the zero-size shortcut returns the factory function itself instead of calling it with the resolved shape (passing the factory is no longer equivalent to passing the tensor)")
+    if n == 0:
+        rep.ok("C13.R7", "no-shortcut-returns", m.rel, "no operation returns one of its inputs directly", nontrivial=False)
+
+
 def r8(p, rep):
     rep.rule("C13.R8", "optional keywords (name, arg_index, signature) are offered to every factory parameter that can bind a keyword", "T-EXH over inspect.Parameter kinds", floor=2)
     f = p.func("_call_tensorfactory", "adapter.namedtensor_calltensorfactory")
@@ -403,6 +424,7 @@ def run(p, rep, tier):
     r4(p, rep)
     r5(p, rep)
     r6(p, rep)
+    r7(p, rep)
     r8(p, rep)
     from . import c06
 
